@@ -11,7 +11,12 @@ for j in benign/$pat/meta.json; do
   props=$(python3 -c "import json;print(' '.join(json.load(open('$j'))['properties']))")
   S=$(mktemp -d /tmp/govc-benign.XXXXXX)
   git -C /repo worktree add -q --detach $S/repo HEAD 2>/dev/null || { echo "cannot create worktree"; exit 2; }
-  if ! git -C $S/repo apply "$PWD/$d/patch.diff" 2>/dev/null; then (cd $S/repo && patch -p1 -s < "$PWD/$d/patch.diff") || { echo "BENIGN $name: patch does not apply"; fail=1; }; fi
+  if ! git -C $S/repo apply "$PWD/$d/patch.diff" 2>/dev/null; then
+    if ! (cd $S/repo && patch -p1 -s < "$PWD/$d/patch.diff" >/dev/null 2>&1); then
+      echo "BENIGN $name: PATCH DOES NOT APPLY to the current HEAD (rebase it); skipped"; fail=1
+      git -C /repo worktree remove --force $S/repo 2>/dev/null; rm -rf $S; continue
+    fi
+  fi
   for p in $props; do
     out=$(GOVC_REPO=$S/repo GOVC_EVIDENCE_DIR=$S/ev ./check $p quick 2>&1); rc=$?
     if [ $rc -eq 0 ] && ! echo "$out" | grep -q "^VIOLATION"; then
